@@ -47,8 +47,11 @@ contract(f"{FO}::Folder.scan", props=["C14"],
                   # a timed scan request only arms the countdown (and is ignored while one is in progress): nothing visible changes yet
                   ("timed_scan_arms_countdown", "implies(not old(self.deleted) and not instant_scan, self.visible_health_status == old(self.visible_health_status)"
                                                 " and self.scan_countdown == (self.scan_duration if old(self.scan_countdown) <= 0 else old(self.scan_countdown)) and result == True)"),
-                  ("actual_untouched", "self.health_status == old(self.health_status)")],
-         modifies=["self.scan_countdown", "self.visible_health_status", "File.visible_health_status", "File.num_access"],
+                  ("actual_untouched", "self.health_status == old(self.health_status)"),
+                  # what the folder observation relies on between scans (C09): a change of the visible status is announced in the
+                  # folder's reported state (`scanned_this_step`), also when it comes from an instant scan (the node-level scan)
+                  ("a_change_of_visible_health_is_announced", "implies(self.visible_health_status != old(self.visible_health_status), self._scanned_this_step == True)")],
+         modifies=["self.scan_countdown", "self.visible_health_status", "self._scanned_this_step", "File.visible_health_status", "File.num_access"],
          emits=[("folder_scan", ["self", "instant_scan"])], exact_events=True,
          loops={0: {"inv": [("countdown_kept", "self.scan_countdown == old(self.scan_countdown) and self.health_status == old(self.health_status)")],
                     "modifies": ["self.visible_health_status", "File.visible_health_status", "File.num_access"]}})
@@ -97,7 +100,7 @@ contract(f"{FSY}::FileSystem.scan", props=["C14"],
                                                 " event_kind(old(n_events()) + j) == ev('folder_scan') and event_arg(old(n_events()) + j, 0) is dict_val(self.folders, j)"
                                                 " and event_arg(old(n_events()) + j, 1) == instant_scan)"),
                   ("structure_kept", "same_dict(self.folders)")],
-         modifies=["Folder.scan_countdown", "Folder.visible_health_status", "File.visible_health_status", "File.num_access"],
+         modifies=["Folder.scan_countdown", "Folder.visible_health_status", "Folder._scanned_this_step", "File.visible_health_status", "File.num_access"],
          loops={0: {"inv": [("scanned_so_far", "n_events() == old(n_events()) + _i and forall(j, 0, _i, event_kind(old(n_events()) + j) == ev('folder_scan')"
                                                " and event_arg(old(n_events()) + j, 0) is dict_val(self.folders, j) and event_arg(old(n_events()) + j, 1) == instant_scan)"),
                             ("structure_kept", "same_dict(self.folders)")]}})
